@@ -755,7 +755,8 @@ class Interp:
         t0 = time.time()
         m = None
         # one query per group of leftover guards (each is a local fact about one loop)
-        groups = [ctx.unwind[k:k + 6] for k in range(0, len(ctx.unwind), 6)]
+        # (all at once first; groups, then single guards, only if that is undecided)
+        groups = [list(ctx.unwind)]
         while groups:
             grp = groups.pop(0)
             s = z3.SolverFor("QF_BV")
@@ -769,6 +770,9 @@ class Interp:
                 m = s.model()
                 break
             if r != z3.unsat:
+                if len(grp) > 6:
+                    groups = [grp[k:k + 6] for k in range(0, len(grp), 6)] + groups
+                    continue
                 if len(grp) > 1:
                     groups = [[x] for x in grp] + groups
                     continue
@@ -1893,7 +1897,7 @@ def minimize_model(s, variables, tally=None, budget_s=20.0):
 
 
 def prove(I, thunk, assumptions, variables, native, tally, timeout_s=60, expect=None, on_witness=None,
-          minimize=True, max_witnesses=6, cross_check=None, cross_timeout_ms=4000):
+          minimize=True, max_witnesses=6, cross_check=None, cross_timeout_ms=4000, initial_blocks=()):
     """Decide `thunk` (an interpreted law returning a truth value) for all values of `variables`
     satisfying `assumptions`.
 
@@ -1927,7 +1931,7 @@ def prove(I, thunk, assumptions, variables, native, tally, timeout_s=60, expect=
         # variables are W-bit signed views of Python ints
         return {n: m.eval(variables[n], model_completion=True).as_signed_long() for n in names}
 
-    blocks = []               # blocking clauses of recorded known findings hold on every path
+    blocks = list(initial_blocks)   # blocking clauses of recorded known findings hold on every path
     for p in sorted(paths, key=lambda q: len(q.pc)):
         base = list(p.assumptions) + list(p.pc)
 
@@ -2108,12 +2112,22 @@ def obligations(pid, clause, config, I, thunk, variables, assumptions, native, t
         if bad_nat:
             verified.append((kw, mk_block(kw)))
 
+    # a reproduced listed finding whose witness lies outside this item's sub-domain: its consequences inside the
+    # sub-domain are excluded from the start (the finding itself is hit by the item that contains the witness)
+    pre = []
+    if block_of is not None:
+        for kw, blk in verified:
+            s_ = z3.Solver()
+            s_.add(*assumptions)
+            s_.add(*[variables[n] == kw[n] for n in kw])
+            if s_.check() == z3.unsat:
+                pre.append(blk)
+
     def on_witness(wit):
         probe = dict(clause=clause, config=config, witness=wit)
         if common.known_match(known, pid, probe) is not None:
             return mk_block(wit)
         if block_of is not None:
-            sub = [(v, z3.BitVecVal(wit[n], v.size())) for n, v in variables.items() if z3.is_const(v) and not z3.is_bv_value(v)]
             for kw, blk in verified:
                 # is this witness excluded by the blocking clause of a reproduced listed finding?
                 s_ = z3.Solver()
@@ -2126,7 +2140,8 @@ def obligations(pid, clause, config, I, thunk, variables, assumptions, native, t
     t0 = time.time()
     try:
         res = prove(I, thunk, assumptions, variables, native, tally, timeout_s=timeout_s, expect=expect,
-                    on_witness=on_witness, minimize=minimize, max_witnesses=max_witnesses, cross_check=cross_check)
+                    on_witness=on_witness, minimize=minimize, max_witnesses=max_witnesses, cross_check=cross_check,
+                    initial_blocks=pre)
     except (NotEncodable, Unwind, Inconclusive) as e:
         st = "inconclusive" if isinstance(e, Inconclusive) else "error"
         return [common.ob(clause, config, st, what=f"{type(e).__name__}: {e}", stretch=stretch, **tally.take())]
@@ -2136,7 +2151,8 @@ def obligations(pid, clause, config, I, thunk, variables, assumptions, native, t
     out = []
     stats = tally.take()
     if res["status"] == "holds":
-        out.append(common.ob(clause, config, "holds", what=text, sample=sample, stretch=stretch, **stats))
+        what = text + (" [consequences of a listed, reproduced finding outside this sub-domain are excluded]" if pre else "")
+        out.append(common.ob(clause, config, "holds", what=what, sample=sample, stretch=stretch, **stats))
         return out
     if res["status"] in ("error", "inconclusive") and not res["witnesses"]:
         out.append(common.ob(clause, config, res["status"], what=res["note"] or res["status"], sample=sample, stretch=stretch, **stats))
